@@ -1,10 +1,134 @@
-import RgVerif.Model.Sx
+import RgVerif.Driver.PrinterProto
 namespace RgVerif.Driver.C09
-open RgVerif
+open RgVerif RgVerif.Matcher RgVerif.Replace RgVerif.Json RgVerif.Printer RgVerif.PrinterSpec
+open RgVerif.Driver.PrinterProto
 
-/-- Request handler of property C09: `cmd` is the first token of the line, `args` the rest. -/
+/-- continue flags of the Standard sink, event by event (the model's own `stdEvent`) -/
+def stdTrace (sc : SCfg) (c : StdCfg) (find : Oracle) : StdState → List Event → List Bool → StdState × List Bool
+  | st, [], acc => (st, acc.reverse)
+  | st, ev :: rest, acc =>
+    let (st', cont) := stdEvent sc c find st ev
+    if cont then stdTrace sc c find st' rest (true :: acc) else (st', (false :: acc).reverse)
+
+/-- the spec's output for the events the sink processed, and whether every one of them satisfies the guard -/
+def specTrace (sc : SCfg) (c : StdCfg) (find : Oracle) : StdState → List Event → Bytes → Bool → Bytes × Bool
+  | _, [], acc, g => (acc, g)
+  | st, ev :: rest, acc, g =>
+    let w := eventOutput sc c find st.count st.total ev
+    let g := g && eventGuard sc c find ev
+    let (st', cont) := stdEvent sc c find st ev
+    if cont then specTrace sc c find st' rest (acc ++ w) g else (acc ++ w, g)
+
+def jsonTrace (sc : SCfg) (jc : JsonCfg) (find : Oracle) : JsonState → List Event → List Bool → List Bool
+  | _, [], acc => acc.reverse
+  | st, ev :: rest, acc =>
+    let (st', cont) := jsonEvent sc jc find st ev
+    if cont then jsonTrace sc jc find st' rest (true :: acc) else (false :: acc).reverse
+
+def parseJC : Sx → Option JsonCfg
+  | .list (.atom "jc" :: fs) => do
+    let max ← (Sx.field1 fs "max") >>= optOf Sx.nat?
+    let abe ← (Sx.field1 fs "abe") >>= Sx.bool?
+    let path ← (Sx.field1 fs "path") >>= optOf Sx.bytes?
+    pure { maxMatches := max, alwaysBeginEnd := abe, path }
+  | _ => none
+
+def parseShape : Sx → Option Shape
+  | .list [.atom "shape", p, l, c, o, ps, s] => do
+    pure { hasPath := (← p.bool?), hasLineNo := (← l.bool?), hasCol := (← c.bool?), hasOff := (← o.bool?)
+         , pathSep := (← ps.nat?), sep := (← s.nat?) }
+  | _ => none
+
+def showOptBytes : Option Bytes → String
+  | none => "~"
+  | some b => toHex b
+
 def handle (cmd : String) (args : List Sx) : String :=
   match cmd, args with
+  | "c09.decimal", [n] =>
+    match n.nat? with
+    | some n => toHex (decimal n)
+    | none => "bad-op"
+  | "c09.parsenat", [b] =>
+    match b.bytes? with
+    | some b => toString (parseNat b)
+    | none => "bad-op"
+  | "c09.base64", [b] =>
+    match b.bytes? with
+    | some b => toHex (base64 b)
+    | none => "bad-op"
+  | "c09.unbase64", [b] =>
+    match b.bytes? with
+    | some b => (match unbase64 b with | some r => toHex r | none => "none")
+    | none => "bad-op"
+  | "c09.utf8", [b] =>
+    match b.bytes? with
+    | some b => if validUtf8 b then "1" else "0"
+    | none => "bad-op"
+  | "c09.data", [b] =>
+    match b.bytes? with
+    | some b =>
+      let d := encodeData b
+      -- model encoding, and the spec's reading of it
+      showData d ++ " " ++ (match decodeData d with | some r => toHex r | none => "none")
+    | none => "bad-op"
+  | "c09.parse", [sh, b] =>
+    match parseShape sh, b.bytes? with
+    | some sh, some b =>
+      match parseRecord sh b with
+      | some (p, ln, col, off, text) => s!"{showOptBytes p} {optNat ln} {optNat col} {optNat off} {toHex text}"
+      | none => "none"
+    | _, _ => "bad-op"
+  | "c09.cuts", [sc, bufs, evs] =>
+    match parseSC sc with
+    | none => "bad-op"
+    | some sc =>
+      match parseBufs bufs with
+      | none => "bad-op"
+      | some bufs =>
+        match parseEvs sc bufs evs with
+        | some evs => cutsOf evs
+        | none => "bad-op"
+  | "c09.standard", [sc, std, .list [.atom "w", cnt, tot], bufs, evs, bc] =>
+    match parseSC sc, parseStd std, cnt.nat?, tot.nat?, bc.nat? with
+    | some sc, some c, some cnt, some tot, some bc =>
+      match parseBufs bufs with
+      | none => "bad-op"
+      | some bufs =>
+        match parseEvs sc bufs evs with
+        | none => "bad-op"
+        | some pevs =>
+          let find := oracleOf pevs
+          let evs := pevs.map (·.1)
+          let w : StdState := { count := cnt, total := tot }
+          let fin := stdSearch sc c find w evs bc
+          -- per-event trace with the same begin
+          let st0 : StdState := { w with stats := if c.stats then some {} else none }
+          let (st1, go) := stdBegin c st0
+          let (st2, conts) := if go then stdTrace sc c find st1 evs [] else (st1, [])
+          let (spec, guard) := if go then specTrace sc c find st1 evs [] true else ([], true)
+          if st2.out != fin.out then "driver-inconsistent"
+          else
+            s!"out={toHex fin.out} begin={if go then 1 else 0} conts={showBools conts}- mc={fin.matchCount} " ++
+            s!"stats={showOptStats fin.stats} spec={toHex spec} guard={if guard then 1 else 0}"
+    | _, _, _, _, _ => "bad-op"
+  | "c09.json", [sc, jc, bufs, evs, bc] =>
+    match parseSC sc, parseJC jc, bc.nat? with
+    | some sc, some jc, some bc =>
+      match parseBufs bufs with
+      | none => "bad-op"
+      | some bufs =>
+        match parseEvs sc bufs evs with
+        | none => "bad-op"
+        | some pevs =>
+          let find := oracleOf pevs
+          let evs := pevs.map (·.1)
+          let fin := jsonSearch sc jc find evs bc
+          let (st1, go) := jsonBegin jc {}
+          let conts := if go then jsonTrace sc jc find st1 evs [] else []
+          s!"panicked={if fin.panicked then 1 else 0} begin={if go then 1 else 0} conts={showBools conts}- " ++
+          s!"msgs={";".intercalate (fin.msgs.map showMsg)}"
+    | _, _, _ => "bad-op"
   | _, _ => "bad-op"
 
 end RgVerif.Driver.C09
